@@ -17,8 +17,12 @@ deriving Repr
 def isDigit (c : Char) : Bool := '0' ≤ c && c ≤ '9'
 
 /-- Rust `usize::from_str`: optional `+`, at least one ASCII digit, value below 2^64 -/
+def stripPlus : Text → Text
+  | '+' :: r => r
+  | r => r
+
 def parseUsize (s : Text) : Option Nat :=
-  let body := match s with | '+' :: r => r | r => r
+  let body := stripPlus s
   if body.isEmpty || !body.all isDigit then none else
   let v := body.foldl (fun acc c => acc * 10 + (c.toNat - 48)) 0
   if v < 2 ^ 64 then some v else none
